@@ -11,11 +11,16 @@ SHARD = 40
 RULE = ("one case = (recorded program P, replayed program P') where P' is P or a behavioural edit of P: changed output argument, "
         "dropped / added / duplicated / reordered output call, changed final result, raise instead of return; P makes 1-14 calls "
         "per output alias (two-digit ordinals in a fifth of the cases) over 1-3 aliases, instance and static outputs, outputs "
-        "with data handlers, positional and keyword arguments, values from the faithful domain; non-trivial = an edited pair or "
-        "more than nine calls of an alias; distinct = distinct (P, P')")
+        "with data handlers (preparing a container, an int digest or None), positional and keyword arguments, values from the "
+        "faithful domain; non-trivial = an edited pair or more than nine calls of an alias; distinct = distinct (P, P'); plus "
+        "(implementation only, always runs) histories of operations that end in exceptions of ONE type whose instances carry "
+        "different data and differ in whether they can be encoded (unencodable instance before / between / after ordinary ones, "
+        "on the recording and the replaying side, a subclass, a new recorder in between, three cassettes)")
 ASSUMPTIONS = ["a failing output data handler during replay silently drops the entry (handlers succeed here; faults are C04's)",
                "single-threaded operations"]
-TRUSTED = ["harness-side journal of the output calls the generated code makes (trace 'begin' events outside interceptions)"]
+TRUSTED = ["harness-side journal of the output calls the generated code makes (trace 'begin' events outside interceptions)",
+           "exception-history stream: what an exception instance carries (attributes) is outside the Coq model (an exception is "
+           "its type name there): direct predicate only"]
 THEOREMS = ["C03_okey_injective", "C03_playback_outputs_exact", "C03_recorded_outputs_exact", "C03_entry_is_nth_call",
             "C03_diff_localised", "C03_key_kinds_disjoint"]
 
@@ -70,7 +75,8 @@ def with_extractor(rng, op):
 def rand_program(rng):
     naliases = rng.choice([1, 2, 3])
     aliases = rng.sample(ALIASES, naliases)
-    kinds = {a: (rng.random() < 0.5, rng.choice(["none", "none", "wrap"])) for a in aliases}
+    # (what an output data handler prepares is opaque: a container, but also a digest of the call - an int - or nothing - None)
+    kinds = {a: (rng.random() < 0.5, rng.choice(["none", "none", "wrap", "wrap", "count", "null"])) for a in aliases}
     big = rng.random() < 0.2
     stmts = []
     for a in aliases:
@@ -162,7 +168,88 @@ def generate(rng, tier):
                              aborting=True))
         runs.append(dict(kind="play", target=0, pf={"kind": "op", "op": Pp}, enabled=rng.random() < 0.5))
         cases.append(dict(draws=draws, runs=runs, cassette="memory", edit=kind, unshare=True))
+    cases += exc_history_cases()
     return cases
+
+
+# ---- the operation entry for a RAISED exception, over histories of exceptions of one type (implementation only) -------------
+# The DSL's `raise ty` raises an exception without data, and every case used types whose instances either always or never
+# encode.  What an exception carries beyond its message (attributes) is part of "the raised exception" the entry stands for,
+# and whether an INSTANCE can be encoded is a property of that instance.
+_V1 = {"kind": "value", "v": pv.dct([("code", pv.i(1))])}
+_V2 = {"kind": "value", "v": pv.dct([("code", pv.i(2))])}
+_V3 = {"kind": "value", "v": pv.lst([pv.s("row"), pv.tup([pv.i(1), pv.i(2)])])}
+_UNSER, _DEEP = {"kind": "unser"}, {"kind": "deep"}
+
+
+def exc_history_cases():
+    """histories (one recorder unless stated, one interpreter) of operations ending in T(payload): each step is recorded and then
+    replayed with T(payload'); an unencodable instance (payload holding something the serializer refuses / nested too deep)
+    before, between and after ordinary ones, on the recording and on the replaying side, T and a subclass of T, a new recorder
+    in between; deterministic, the same cases in both tiers."""
+    T, U = "PayloadError", "OtherPayloadError"
+    st = lambda ty, a, b, **kw: dict(ty=ty, rec=a, play=b, **kw)      # noqa: E731
+    hist = [
+        [st(T, _V1, _V2), st(T, _V1, _V1), st(T, _V3, _V1)],
+        [st(T, _UNSER, _UNSER), st(T, _V1, _V2), st(T, _V2, _V2)],
+        [st(T, _DEEP, _DEEP), st(T, _V1, _V1), st(T, _V1, _V3)],
+        [st(T, _V1, _V2), st(T, _UNSER, _V1), st(T, _V1, _V2)],
+        [st(T, _V1, _UNSER), st(T, _V1, _V2)],
+        [st(U, _UNSER, _UNSER), st(T, _V1, _V2), st(U, _V2, _V1)],
+        [st(T, _UNSER, _DEEP), st(U, _V1, _V2), st(T, _V3, _V3, new_recorder=True), st(T, _V1, _V2)],
+        [st(T, _V2, _V2), st(T, _DEEP, _UNSER, new_recorder=True), st(T, _V2, _V3, new_recorder=True)],
+    ]
+    return [dict(kind="exc_history", cassette=["memory", "file", "s3"][(k + j) % 3], steps=h)
+            for k, h in enumerate(hist) for j in range(2)]
+
+
+def _want_entry(ty, p):
+    if p["kind"] == "value":
+        return {"form": "exception", "ty": ty, "attrs": [["payload", pv.canon_json(p["v"])]]}
+    return {"form": "reduced", "ty": ty}
+
+
+def direct_exc_history(case, obs):
+    """the entry for the operation's raised exception IS that exception - its type and what the instance carries - whenever the
+    instance can be encoded (the documented reduced form {error_type, error_repr} otherwise), on the recorded and on the
+    playback side, whatever was raised earlier in the process; the two entries differ exactly if what was raised differs."""
+    fails = []
+    for i, (st, ob) in enumerate(zip(case["steps"], obs["steps"])):
+        where = "step %d of a history of %s (%s cassette)" % (i, [s["ty"] + ":" + s["rec"]["kind"] + "/" + s["play"]["kind"]
+                                                                 for s in case["steps"][:i + 1]], case["cassette"])
+        if not ob.get("saved"):
+            fails.append(("exception-run-not-recorded", "%s: the record run ended with %s and nothing was saved" % (where, ob.get("record_outcome"))))
+            continue
+        if ob.get("play_outcome") != {"o": "val", "v": {"t": "none"}}:
+            fails.append(("replay-failed", "%s: play() ended with %s" % (where, ob.get("play_outcome"))))
+            continue
+        for side, p, got in (("recorded", st["rec"], ob["rec_entry"]), ("playback", st["play"], ob["play_entry"])):
+            want = _want_entry(st["ty"], p)
+            g = {k: v for k, v in got.items() if k in want}
+            if g != want:
+                fails.append(("operation-entry-is-not-the-raised-exception", "%s: the operation raised %s(payload %s); the %s outputs' "
+                              "operation entry is %s" % (where, st["ty"], json_short(p), side, json_short(got))))
+        same_raised = st["rec"] == st["play"]
+        same_entry = ob["rec_entry"] == ob["play_entry"]
+        if st["rec"]["kind"] == "value" and st["play"]["kind"] == "value" and same_raised != same_entry:
+            fails.append(("diff-not-localised", "%s: recorded program raised %s, replayed program raised %s, the operation entries %s" %
+                          (where, json_short(st["rec"]), json_short(st["play"]), "are equal" if same_entry else "differ")))
+    return fails
+
+
+def json_short(x):
+    import json
+    return json.dumps(x, sort_keys=True, default=str)[:200]
+
+
+def captured_form(handler, args, kwargs):
+    if handler == "wrap":
+        return {"d": "data", "v": {"t": "dict", "v": sorted([["a", {"t": "list", "v": args}], ["k", {"t": "dict", "v": kwargs}]])}}
+    if handler == "count":
+        return {"d": "data", "v": pv.i(len(args) + 10 * len(kwargs))}
+    if handler == "null":
+        return {"d": "data", "v": pv.none()}
+    return {"d": "out", "args": args, "kwargs": kwargs}
 
 
 def expected_outputs(op, outcome):
@@ -178,10 +265,7 @@ def expected_outputs(op, outcome):
                 cnt[al] = cnt.get(al, 0) + 1
                 args = [pv.canon_json(e["lit"]) for e in inner["args"]]
                 kwargs = sorted([k, pv.canon_json(e["lit"])] for k, e in inner["kwargs"])
-                if inner["cfg"]["handler"] == "wrap":
-                    d = {"d": "data", "v": {"t": "dict", "v": sorted([["a", {"t": "list", "v": args}], ["k", {"t": "dict", "v": kwargs}]])}}
-                else:
-                    d = {"d": "out", "args": args, "kwargs": kwargs}
+                d = captured_form(inner["cfg"]["handler"], args, kwargs)
                 exp["output: %s #%d.output" % (al, cnt[al])] = d
             c = c["h"]
             continue
@@ -192,10 +276,7 @@ def expected_outputs(op, outcome):
             cnt[al] = cnt.get(al, 0) + 1
             args = [pv.canon_json(e["lit"]) for e in c["args"]]
             kwargs = sorted([k, pv.canon_json(e["lit"])] for k, e in c["kwargs"])
-            if c["cfg"]["handler"] == "wrap":
-                d = {"d": "data", "v": {"t": "dict", "v": sorted([["a", {"t": "list", "v": args}], ["k", {"t": "dict", "v": kwargs}]])}}
-            else:
-                d = {"d": "out", "args": args, "kwargs": kwargs}
+            d = captured_form(c["cfg"]["handler"], args, kwargs)
             exp["output: %s #%d.output" % (al, cnt[al])] = d
             c = c_
         if "next" not in c:
@@ -211,6 +292,8 @@ def expected_outputs(op, outcome):
 def direct(case, obs):
     if "driver_exception" in obs:
         return [("driver", obs["driver_exception"] + obs.get("trace", "")[-400:])]
+    if case.get("kind") == "exc_history":
+        return direct_exc_history(case, obs)
     if f07c_affected(obs):
         return []          # region of known finding F07c (reported by C01): nothing is concluded from such a case
     fails = []
@@ -251,7 +334,44 @@ def direct(case, obs):
 
 
 def nontrivial(case):
+    if case.get("kind") == "exc_history":
+        return True
     return case.get("edit") != "unchanged" or any(n["k"] == "out" for n in rd.walk(case["runs"][0]["op"]["body"]))
+
+
+# ---- exc_history cases are implementation only: the hooks of rec_common apply to history cases --------------------------------
+_h_to_gallina, _h_explain, _h_features, _h_shrink = to_gallina, explain, features, shrink_candidates  # noqa: F405
+
+
+def to_gallina(case, obs):  # noqa: F811
+    return None if case.get("kind") == "exc_history" else _h_to_gallina(case, obs)
+
+
+def explain(case, obs):  # noqa: F811
+    return "tt" if case.get("kind") == "exc_history" else _h_explain(case, obs)
+
+
+def features(case):  # noqa: F811
+    if case.get("kind") != "exc_history":
+        return _h_features(case)
+    fs = {"probe:exception-history", "cassette:" + case["cassette"], "exc-history-steps:%d" % len(case["steps"])}
+    seen_bad = False
+    for st in case["steps"]:
+        bad = st["rec"]["kind"] != "value" or st["play"]["kind"] != "value"
+        if seen_bad and not bad:
+            fs.add("exc-history:encodable-instance-after-unencodable-instance-of-the-type")
+        seen_bad = seen_bad or bad
+        fs |= {"exc-payload:" + st["rec"]["kind"], "exc-payload:" + st["play"]["kind"]}
+        if st.get("new_recorder"):
+            fs.add("exc-history:new-recorder-in-between")
+    return fs
+
+
+def shrink_candidates(case):  # noqa: F811
+    if case.get("kind") == "exc_history":
+        st = case["steps"]
+        return [dict(case, steps=st[:i] + st[i + 1:]) for i in range(len(st))] if len(st) > 1 else []
+    return _h_shrink(case)
 
 
 MANIFEST = dict(
@@ -265,7 +385,8 @@ MANIFEST = dict(
          "(outputs_diff_localised); output, result and input entries never collide. Tie: (P, P') pairs with every edit kind "
          "and up to 14 calls per alias on the real recorder, recorded and playback outputs compared with the model. Direct "
          "predicate: both maps equal what the program text sends (harness-side), and their diff is exactly at the edited "
-         "entries.",
+         "entries. Round 6: output handlers whose prepared value is an int / None (model + direct); the operation entry of a raised "
+         "exception is that exception - type and attributes - whenever the instance encodes, whatever was raised before (direct).",
     note="Trusted: Coq kernel + vm_compute, hand-written model, correspondence harness, harness-side expectation from the "
          "program text. A failing output handler during replay drops the entry (stated limit).",
     technique="Coq proof (structural induction with per-alias counter algebra; string injectivity of the key format) + "
